@@ -49,10 +49,10 @@ def plan(tier, seed):
         shards.append(dict(name=f"type{i}", kind="type", n=3 if q else 14, start=i))
     ccs = gen.ccs()
     if q:
-        ex = [[ccs[3]], [ccs[40]], [ccs[77]], ["TPMS_AUTH_COMMAND"]]
+        ex = [[ccs[3]], [ccs[40]], [ccs[77]], ["TPM_ST"], ["TPMS_AUTH_COMMAND"]]  # TPM_ST has derived spec types
     else:
         names = ["TPMS_AUTH_COMMAND", "TPM2B_PUBLIC", "TPMT_HA", "TPML_PCR_SELECTION", "TPMA_SESSION", "TPM2B_DIGEST", "TPMS_CAPABILITY_DATA",
-                 "TPMT_TK_CREATION", "TPMI_ALG_HASH", "TPM_HANDLE", "TPMS_ATTEST", "TPM2B_NONCE"]
+                 "TPMT_TK_CREATION", "TPMI_ALG_HASH", "TPM_HANDLE", "TPMS_ATTEST", "TPM2B_NONCE", "TPM_ST", "TPM_ALG_ID", "UINT16", "TPM_ALG"]
         ex = [ccs[i::16] for i in range(16)] + [names[i::4] for i in range(4)]
     for i, group in enumerate(ex):
         shards.append(dict(name=f"example{i}", kind="example", items=group))
